@@ -71,6 +71,69 @@ where
             Report::new()
         });
         let data: Vec<(Gen<M>, Vec<LibOutcome>)> = slots.into_iter().map(|s| s.into_inner().unwrap().unwrap()).collect();
+        // pipeline-equivalence monitor: a seeded slice of the programs also goes through the real binary, which must
+        // produce byte-identical files (and the same success / failure); a change confined to cli/src/* cannot hide
+        // from the library-level workloads this way
+        {
+            let every = cli_slice_every();
+            let scratch = ctx.scratch(&format!("{id}-cli-r{round}"));
+            let data_ref = &data;
+            let cli = ctx.cli.clone();
+            let picks: Vec<usize> = (0..m).filter(|k| every > 0 && (base + k) % every == 0).collect();
+            let picks_ref = &picks;
+            let r = par_shards(ctx.threads, picks.len(), |pi| {
+                let k = picks_ref[pi];
+                let (g, outs) = &data_ref[k];
+                let mut rep = Report::new();
+                let root = scratch.join(format!("p{k}"));
+                let mut files = g.files.clone();
+                for f in files.iter_mut() {
+                    f.path = format!("src_root/{}", f.path);
+                }
+                crate::sut::write_tree(&root, &files);
+                for (li, (lang, cfg)) in g.langs.iter().enumerate() {
+                    let cfgp = root.join(format!("cfg-{}.toml", lang.name()));
+                    std::fs::write(&cfgp, crate::sut::config_toml(*lang, cfg)).unwrap();
+                    let out = if g.multi { root.join(format!("out-{}", lang.name())) } else { root.join(format!("out-{}.{}", lang.name(), lang.ext())) };
+                    let mut args = vec!["--config-file".to_string(), cfgp.to_string_lossy().into_owned()];
+                    args.extend(crate::sut::cli_args(*lang, cfg, g.multi, &out, &["src_root"]));
+                    let o = crate::sut::run_bin(crate::sut::BinRun { cli: &cli, args: args.clone(), env: vec![], cwd: &root, strace: None, wall_limit: std::time::Duration::from_secs(30) });
+                    rep.count("cli_cross_check_runs", 1);
+                    let detail = || serde_json::json!({"language": lang.name(), "config": cfg.to_json(), "args": args, "source": g.files.iter().map(|f| f.source.clone()).collect::<Vec<_>>(), "library": outs[li].describe(), "cli_exit": format!("{:?}", o.exit), "cli_stderr": o.stderr.chars().take(400).collect::<String>()});
+                    if o.panicked() || !matches!(o.exit, crate::sut::Exit::Code(_)) {
+                        continue; // C07's business
+                    }
+                    // Kotlin without a package and Go/Scala specifics are configuration-equivalent in both drivers
+                    match (&outs[li], o.ok()) {
+                        (LibOutcome::Ok(m), true) => {
+                            let got: std::collections::BTreeMap<String, String> = if g.multi {
+                                crate::sut::read_dir_files(&out).into_iter().filter(|(n, _)| n != "Codable.swift").map(|(n, b)| (n, String::from_utf8_lossy(&b).into_owned())).collect()
+                            } else {
+                                let mut x = std::collections::BTreeMap::new();
+                                x.insert(String::new(), std::fs::read_to_string(&out).unwrap_or_default());
+                                x
+                            };
+                            if got != *m {
+                                rep.violate(format!("{id}|pipeline|cli-output-differs-from-library|{}", lang.name()), format!("{}: the binary's output differs from the library pipeline on the same sources and configuration", lang.name()), {
+                                    let mut d = detail();
+                                    d["cli_output"] = serde_json::json!(got);
+                                    d["library_output"] = serde_json::json!(m);
+                                    d
+                                });
+                            }
+                        }
+                        (LibOutcome::Ok(_), false) | (LibOutcome::ParseErrors(_), true) | (LibOutcome::GenError(_), true) => {
+                            rep.violate(format!("{id}|pipeline|cli-outcome-differs-from-library|{}", lang.name()), format!("{}: binary exit {:?} but library outcome {}", lang.name(), o.exit, outs[li].kind()), detail());
+                        }
+                        _ => {}
+                    }
+                }
+                let _ = std::fs::remove_dir_all(&root);
+                rep
+            });
+            total.merge(r);
+            let _ = std::fs::remove_dir_all(&scratch);
+        }
         // parse all outputs
         let mut texts: Vec<(LangId, &str)> = vec![];
         let mut where_: Vec<(usize, usize, &str)> = vec![];
@@ -148,4 +211,9 @@ pub fn usable<'a, M>(case: &Case<'a, M>, id: &str, rep: &mut Report, failure_is_
             None
         }
     }
+}
+
+/// every n-th program also goes through the real binary (0 = never); VERIF_CLI_SLICE overrides
+fn cli_slice_every() -> usize {
+    std::env::var("VERIF_CLI_SLICE").ok().and_then(|s| s.parse().ok()).unwrap_or(25)
 }
